@@ -119,8 +119,9 @@ def opOf1 (gone : List Nat) (names : List (Nat × String)) (tok : String) : Opti
     | k :: h => do
       -- p: returns one message; n: AddNoPublisherHandler; d: returns two distinct messages with the SAME UUID;
       -- e: returns three distinct messages with EMPTY UUIDs
+      -- t: like p, but registered with the EMPTY publish topic (a publisher all the same: decorated like any other)
       -- z: AddHandler with a nil publisher and a function that returns nothing (not decorated, nothing published)
-      let hasPub ← if k == 'p' then some 1 else if k == 'n' || k == 'z' then some 0 else if k == 'd' then some 2
+      let hasPub ← if k == 'p' || k == 't' then some 1 else if k == 'n' || k == 'z' then some 0 else if k == 'd' then some 2
         else if k == 'e' then some 3 else none
       let h ← natOf h.reverse
       let name ← match name? with | some n => nameOfTok n | none => some (hname h)
